@@ -65,6 +65,19 @@ BUILTINS = {
     "struct.error": ["Exception"],
     "ndef.DecodeError": ["Exception"],
     "ndef.EncodeError": ["Exception"],
+    # pyserial and libusb1 (the layer below nfc/clf/transport.py; `import usb1 as libusb`): the classes the handlers of
+    # transport.py name and their bases (pyserial 3.5 serialutil.py, libusb1 3.x usb1/__init__.py)
+    "serial.SerialException": ["OSError"],
+    "serial.SerialTimeoutException": ["serial.SerialException"],
+    "usb1.USBError": ["Exception"],
+    "usb1.USBErrorIO": ["usb1.USBError"],
+    "usb1.USBErrorAccess": ["usb1.USBError"],
+    "usb1.USBErrorBusy": ["usb1.USBError"],
+    "usb1.USBErrorNoDevice": ["usb1.USBError"],
+    "usb1.USBErrorTimeout": ["usb1.USBError"],
+    # every other libusb error code (INVALID_PARAM, NOT_FOUND, OVERFLOW, PIPE, INTERRUPTED, NO_MEM, NOT_SUPPORTED, OTHER):
+    # no handler names them, one representative
+    "usb1.USBErrorOther": ["usb1.USBError"],
 }
 # other spellings of builtin classes
 ALIASES = {"IOError": "OSError", "EnvironmentError": "OSError", "socket.error": "OSError",
@@ -533,6 +546,14 @@ class FnTranslator:
             c = self.stored_exception_class(exc)
         if c is None:
             return self.seq(eff + [self.other(s)])
+        if c == "OSError" and isinstance(exc, ast.Call) and len(exc.args) >= 2:
+            # `OSError(errno, strerror)` constructs the subclass CPython maps the errno to (PEP 3151); of those classes the
+            # tree has `TimeoutError` (ETIMEDOUT), every other one is represented by `OSError` itself
+            first = ast.unparse(exc.args[0])
+            if first in ("errno.ETIMEDOUT", "110"):
+                c = "TimeoutError"
+            elif not (first.startswith("errno.") or isinstance(exc.args[0], ast.Constant)):
+                return self.seq(eff + ["(branch (raise Cls.OSError) (raise Cls.TimeoutError))"])
         return self.seq(eff + ["(raise Cls.%s)" % lean_ident(c)])
 
     def stored_exception_class(self, node):
@@ -1673,13 +1694,43 @@ def _stack_copies():
     ]
 
 
+def _transport():
+    """nfc/clf/transport.py: the two host transports, with the primitive assumption at pyserial / libusb1 (C13, C14).
+    pyserial: the constructor, `read`, `write`, `flushInput`, `flushOutput` and setting `timeout` on an open port report
+    failures as `SerialException` (an IOError; `write` with a write timeout: the subclass `SerialTimeoutException`);
+    `close()` does not raise.  libusb1: every call that reaches libusb (`getDeviceList`, string descriptors, `open`,
+    `claimInterface`, `bulkRead`, `bulkWrite`, iterating the configuration) may raise any `USBError` subclass; the
+    accessors of descriptor objects already read (`getBusNumber`, `getDeviceAddress`, `getAddress`, `getAttributes`,
+    `getMaxPacketSize`, `iterEndpoints`) and `USBDeviceHandle.close()` do not raise."""
+    TR = "nfc.clf.transport"
+    SER, USBE = "serial.SerialException", "usb1.USBError"
+    quiet = ["dev.getBusNumber", "dev.getDeviceAddress", "first_setting.iterEndpoints", "endpoint.getAddress",
+             "endpoint.getAttributes", "transfer_type", "endpoint_dir", "self.usb_inp.getAddress", "self.usb_out.getAddress",
+             "self.usb_out.getMaxPacketSize", "self.usb_dev.close", "self.tty.close"]
+    return [
+        F("tty.__init__", TR, "TTY.__init__"),
+        F("tty.open", TR, "TTY.open", sites={"serial.Serial": [SER]}),
+        F("tty.read", TR, "TTY.read", sites={"self.tty.read": [SER], "setattr:self.tty.timeout": [SER]}),
+        F("tty.write", TR, "TTY.write", sites={"self.tty.flushInput": [SER], "self.tty.write": [SER]}),
+        F("tty.close", TR, "TTY.close", sites={"self.tty.flushOutput": [SER]}, benign=quiet),
+        F("usb.__init__", TR, "USB.__init__", sites={"libusb.USBContext": [USBE]}),
+        F("usb.open", TR, "USB.open", benign=quiet,
+          sites={"self.context.getDeviceList": [USBE], "dev.iterSettings": [USBE], "next": ["StopIteration", USBE],
+                 "dev.getManufacturer": [USBE], "dev.getProduct": [USBE], "dev.open": [USBE],
+                 "self.usb_dev.claimInterface": [USBE]}),
+        F("usb.read", TR, "USB.read", sites={"self.usb_dev.bulkRead": [USBE]}, benign=quiet),
+        F("usb.write", TR, "USB.write", sites={"self.usb_dev.bulkWrite": [USBE]}, benign=quiet),
+        F("usb.close", TR, "USB.close", benign=quiet),
+    ]
+
+
 Config.FUNCS = _tags()
 _f, _c, _p = _drivers()
 Config.FUNCS = Config.FUNCS + _f + _stack()
 _f2, _c2, _p2, _s2 = _tag_ops()
 Config.SCOPED_LINKS = _s2
 _f3, _c3, _p3 = _sock()
-Config.FUNCS = Config.FUNCS + _f2 + _dep() + _f3 + _clients() + _stack_copies()
+Config.FUNCS = Config.FUNCS + _f2 + _dep() + _f3 + _clients() + _stack_copies() + _transport()
 Config.CLASS_SPECS = _c + _c2 + _c3
 Config.PREFIX_LINKS = dict(list(_p.items()) + list(_p2.items()) + list(_p3.items()))
 # abstract methods that every concrete driver overrides: not a dispatch target
